@@ -507,15 +507,23 @@ inductive SPt
   | exited
   deriving DecidableEq, Repr
 
+/-- the two servers: `SnepServer._serve` ignores the result of `send()`, `HandoverServer.serve`
+    returns when `send()` is false -/
+inductive Srv | snep | handover deriving DecidableEq, Repr
+
 /-- one step of a service thread given the result of the socket call it makes at that point -/
-def serviceStep : SPt → R → SPt
+def serviceStep (srv : Srv) : SPt → R → SPt
   | .listenAccept, .value _ => .listenAccept     -- start a serve thread, accept again
   | .listenAccept, _ => .finallyClose            -- llcp.Error handled, other exceptions pass the finally
   | .servePoll, .value true => .serveRecv
   | .servePoll, _ => .finallyClose               -- false/None ends the loop, exceptions pass the finally
   | .serveRecv, .value true => .serveSend
-  | .serveRecv, _ => .finallyClose               -- None: `break` (snep) / TypeError (handover); errors
+  | .serveRecv, _ => .finallyClose               -- None: TypeError (bytearray(None) / request += None); errors
   | .serveSend, .value true => .servePoll
+  | .serveSend, .value false =>                  -- the connection is no longer established
+    (match srv with
+     | .snep => .servePoll                       -- result not looked at: next poll('recv')
+     | .handover => .finallyClose)               -- `if not socket.send(fragment): return`
   | .serveSend, _ => .finallyClose
   | .finallyClose, _ => .exited
   | .exited, _ => .exited
@@ -541,11 +549,11 @@ def advance (c : Call) : Nat → Step → Option Step
   | _ + 1, .done _ _ => none
   | k + 1, .at p w => if p.isWait && !callTimeout c then none else advance c k (exec c p w)
 
-def serviceRun (w : World) : Nat → SPt → SPt
+def serviceRun (srv : Srv) (w : World) : Nat → SPt → SPt
   | 0, p => p
   | n + 1, p =>
     match resultAfter p.call w with
-    | some r => serviceRun w n (serviceStep p (classify r))
+    | some r => serviceRun srv w n (serviceStep srv p (classify r))
     | none => p
 
 end NfcVerif.Term
